@@ -277,7 +277,8 @@ def tame(line):
     ASan WITHOUT any extra wrapper (known finding, reported under C02; every abort costs seconds):
     such cases keep their shape but the leaves ignore the stop notification instead."""
     p = line.split("|")
-    if "(src" in p[1] and "p:done" in p[2]:
+    # src = let_value_with_stop_source; rtk / lvt (added to the generator later) own an inplace_stop_source the same way
+    if any(k in p[1] for k in ("(src", "(rtk", "(lvt")) and "p:done" in p[2]:
         p[2] = p[2].replace("p:done", "p:ign")
         return "|".join(p)
     return line
@@ -429,6 +430,133 @@ class TokenAdapterPart:
         if lines and impl[0] is not None:
             cov["samples"].append(dict(stream="tokadapter", case=lines[0], observation=impl[0]))
         cov["parts_wall_s"]["tokadapter"] = round(time.time() - t0, 1)
+
+
+# ------------------------------------------------------------------ type_erased_stream, elements with a lifetime
+ES_CFGS = ["direct", "erased", "erased2", "reerased"]
+
+
+class EStreamGen:
+    def __init__(self, rng):
+        self.r = rng
+
+    def item(self):
+        k = self.r.random()
+        if k < 0.7:
+            return f"v{self.r.randint(1, 99)}"
+        if k < 0.85:
+            return "d"
+        return f"e{self.r.randint(1, 9)}"
+
+    def ops(self, throws=True):
+        r = self.r
+        n = r.randint(1, 14)
+        out, pend, closed = [], False, False
+        for _ in range(n):
+            k = r.random()
+            if r.random() < 0.06:            # ignore the protocol picture
+                out.append(r.choice(["F", "K", "N:v3", "N:d:p", "K:e2"]))
+                continue
+            if pend:
+                out.append("F"); pend = False
+            elif closed:
+                out.append(r.choice(["N:v1", "K", "F"]))
+            elif k < 0.82:
+                t = "N:" + self.item()
+                if r.random() < 0.3:
+                    t += ":p"; pend = True
+                if throws and r.random() < 0.2:
+                    t += f":t{r.randint(1, 3)}"
+                out.append(t)
+            elif k < 0.9:
+                out.append("K" if r.random() < 0.7 else f"K:e{r.randint(1, 9)}"); closed = True
+            else:
+                out.append(r.choice(["F", "X", "N:", "N:v", "N:v1:q", "N:v1:t0", "N:v1:p:p", "K:4", "N:v1:t1:p", "n:v1", "N:v1234567"]))
+        return " ".join(out)
+
+
+def es_obs(line):
+    """what the consumer can tell from one harness output line: per op the result and the values read"""
+    out = []
+    for ent in line.split(" | ")[1:]:
+        toks = ent.split()
+        out.append((toks[-1] if toks else "", [t.split("=")[1] for t in toks if t.startswith("r") and "=" in t and not t.startswith("=")]))
+    return out
+
+
+class EStreamPart:
+    name = "estream"
+
+    def __init__(self, n_quick=1500, n_thorough=40000):
+        self.n_quick, self.n_thorough = n_quick, n_thorough
+
+    def run(self, tier, seed, verdict, cov, driver):
+        t0 = time.time()
+        try:
+            exe = vlib.build_plain(os.path.join(HERE, "estream.cpp"), ["inplace_stop_token.cpp"], (), None, sanitize="address,undefined", name="estream")
+        except vlib.BuildError as e:
+            verdict.add("estream:build", "type_erased_stream element harness does not build against the current tree: " + str(e)[-1500:], dict(stream="estream"), found_input=False)
+            return
+        n = self.n_quick if tier == "quick" else self.n_thorough
+        rng = random.Random(seed * 7919 + 183)
+        g = EStreamGen(rng)
+        seqs = []
+        cdir = os.path.join(vlib.VERIF, "corpus", "estream")
+        if os.path.isdir(cdir):
+            for fn in sorted(os.listdir(cdir)):
+                seqs += [(l.strip(), True) for l in open(os.path.join(cdir, fn)) if l.strip() and not l.startswith("#")]
+        for i in range(n):
+            throws = (i % 3 == 0)
+            seqs.append((g.ops(throws), throws))
+        lines = [f"{i}.{k} | {c} | {ops}" for i, (ops, _) in enumerate(seqs) for k, c in enumerate(ES_CFGS)]
+        try:
+            impl, crashes = run_lines(exe, lines, "case ")
+        except subprocess.TimeoutExpired:
+            verdict.add("estream: harness timeout", "estream harness timed out", dict(stream="estream"), found_input=False)
+            return
+        cov["sanitizer_aborts"] = cov.get("sanitizer_aborts", 0) + len(crashes)
+        for k, site, err in crashes:
+            verdict.add(f"estream: {site}", f"type_erased_stream aborted under ASan/UBSan: {lines[k]}", dict(stream="estream", case=lines[k], sanitizer_report=err), found_input=True)
+        distinct, hist = set(), {}
+        for l, a in zip(lines, impl):
+            if a is None:
+                continue
+            b = driver.ask("ask estream run | " + l)
+            cov["evaluations"] += 1
+            cov["traces_validated_against_impl"] += 1
+            for t in l.split("|")[2].split():
+                kk = t.split(":")[0] if t.split(":")[0] in ("N", "F", "K") else "malformed"
+                if kk == "N":
+                    kk += ("p" if ":p" in t else "") + ("t" if ":t" in t else "")
+                hist[kk] = hist.get(kk, 0) + 1
+            if "!!" in a:
+                mon = a.split("!!")[1].split()[0].split(":")[0].split("=")[0]
+                verdict.add(f"estream: monitor {mon}", f"implementation monitor fired: {a}", dict(stream="estream", case=l, impl=a, model=b), found_input=True)
+            if a != b:
+                cov["rejected_histories"] += 1
+                verdict.add("estream: trace differs from the model", f"impl: {a}  model: {b}",
+                            dict(stream="estream", case=l, impl=a, model=b, broken="correspondence estream.cpp vs Proto.ErasedStream.step"), found_input=True)
+            elif " m" in a:
+                distinct.add(l.split("|")[1].strip() + "#" + a.split(" | ", 1)[-1])
+        # model-independent differential: without scripted throws the consumer of the erased stream observes what the
+        # consumer of the wrapped stream observes (results and values read, per op)
+        per = len(ES_CFGS)
+        for i, (ops, throws) in enumerate(seqs):
+            if throws and ":t" in ops:
+                continue
+            outs = impl[i * per:(i + 1) * per]
+            if outs[0] is None:
+                continue
+            base = es_obs(outs[0])
+            for c, o in zip(ES_CFGS[1:], outs[1:]):
+                if o is not None and es_obs(o) != base:
+                    verdict.add("estream: erased stream yields other values than the wrapped stream", f"direct: {outs[0]}  {c}: {o}",
+                                dict(stream="estream", case=lines[i * per + ES_CFGS.index(c)], direct=outs[0], impl=o), found_input=True)
+        cov["distinct_nontrivial"] += len(distinct)
+        cov["estream_op_histogram"] = dict(sorted(hist.items()))
+        if impl and impl[2] is not None:
+            cov["samples"].append(dict(stream="estream", case=lines[2], observation=impl[2]))
+        cov["parts_wall_s"]["estream"] = round(time.time() - t0, 1)
 
 
 # ------------------------------------------------------------------ direct tests
